@@ -1484,6 +1484,13 @@ class Engine:
             s.assumes.append((list(p.pc), tobool(c)))
             p.pc.append(tobool(c)); return 0
         if n == 'vf_nondet64': return s.fresh('nd', 64)
+        if n == 'syscall':
+            # the default SchedInterface: syscall(__NR_futex, addr, FUTEX_WAIT|WAKE | FUTEX_PRIVATE_FLAG, val[, timeout])
+            if not (is_c(a[0]) and a[0] == 202 and is_c(a[2])): raise Unsupported('syscall other than futex')
+            opn = a[2] & 0x7f
+            if opn == 0: n = 'vf_futex_wait'; a = [a[1], a[3] if is_c(a[3]) else simp(z3.Extract(31, 0, tobv(a[3], 64))), a[4] if len(a) > 4 else 0]
+            elif opn == 1: n = 'vf_futex_wake_all'; a = [a[1]]
+            else: raise Unsupported('futex op %d' % opn)
         if n == 'vf_futex_wake_all' or n == 'vf_futex_wake_one':
             e = s.new_event(p, 'F', a[0], 4, None, 'wake', ins.text); e.full = True; e.fx = 'wake'
             return s.fresh('woken', 32)
